@@ -618,3 +618,8 @@ def run(prog, rep, tier, snap):
     rep.rule("R03.6", "the sort entry points order instants through the comparators only, never by the packed word (shared with C03)", 1)
     rep.call(c03.r03_6, prog, rep, "R03.6", ("instant.c", "event.c", "wikisort.c", "event.h", "range.h"))
 READY = True
+
+# texts brought up to date with the rules added in the last rounds
+LEVEL_TEXT = LEVEL_TEXT + ' Also: the rotation merge runs until one range is empty; the binary searches return the two ends of a run of equal elements (walks over every sorted array of up to five elements with three keys); no raw word comparison in the sort entry points.'
+TECHNIQUE = (TECHNIQUE if isinstance(TECHNIQUE, str) else TECHNIQUE) + '; value-fixed walks of the binary searches over all small sorted arrays'
+
